@@ -367,7 +367,7 @@ fn module_symbols(arch: Arch, os: OsKind, m: &ModSpec, adversarial: bool) -> (Ve
                     }
                     3 => {
                         // a deep chain of real levels
-                        for d in 0..48 {
+                        for d in 0..16 {
                             s.push_str(&format!("INLINE {} {} {} {} {:x} {:x}\n", d, 10 + d, d % 2, d % 2, addr, size));
                         }
                         hot.push(addr);
